@@ -61,6 +61,10 @@ def gen_case(seed, tier, index=0):
         {"path": "src/ro.py", "content": "x = 1\n", "mode": 0o444},
     ]
     files = [f for f in files if rng.chance(0.8) or f["path"] in ("src/a.py", "src/b.c", "LICENSES/MIT.txt")]
+    # names that merely START with the name of a directory that gets annotated recursively
+    for extra in ("src2/two.py", "src-legacy/old.py", "srcgen.py", "docs-old/x.html", "src/deeper/y.py", "docs.py"):
+        if rng.chance(0.45):
+            files.append({"path": extra, "content": "v = 0\n"})
     g = rng.randrange(3)
     if g == 0:
         files.append({"path": "REUSE.toml", "content": G.reuse_toml([{"path": "docs/**", "precedence": "aggregate", "SPDX-FileCopyrightText": "2020 X", "SPDX-License-Identifier": "CC0-1.0"}])})
@@ -88,6 +92,11 @@ def gen_case(seed, tier, index=0):
         files.append({"path": "src/debug.log", "content": "log\n"})
         files.append({"path": "src/deep/trace.log", "content": "trace\n"})
         files.append({"path": "secret.cfg", "content": "k = v\n"})
+        if rng.chance(0.12):
+            # ignored entries whose names are legal but not valid UTF-8 (today every command then stops with a
+            # UnicodeDecodeError while reading Git's answer and touches nothing)
+            files.append({"path": "src/caf\udce9.log", "content": "latin-1 name\n"})
+            files.append({"path": "ignored_dir/b\udcfcild.py", "content": "w = 4\n"})
         untracked = []
         if rng.chance(0.5):
             files.append({"path": "src/untracked.py", "content": "u = 1\n"})
@@ -124,7 +133,8 @@ def gen_case(seed, tier, index=0):
                 st["faults"] = [rng.pick([{"op": "open-r", "path": t, "errno": "EACCES"}, {"op": "read", "path": t, "errno": "EIO", "after": 3}])]
             steps.append(st)
         elif k == "annotate-r":
-            dirs = rng.sample([".", "src", "docs", "src/deep"], rng.randint(1, 2))
+            dirs = rng.sample([".", "src", "src", "docs", "src/deep"], rng.randint(1, 2))
+            dirs = sorted(set(dirs))
             opts = rng.sample([["--skip-unrecognised"], ["--fallback-dot-license"], ["--force-dot-license"], ["--skip-existing"],
                                ["--merge-copyrights"], ["--template", "tpl"], ["--year", "2001"], ["--exclude-year"]], rng.randint(1, 3))
             flat = [x for o in opts for x in o]
@@ -263,8 +273,9 @@ def oracle(case, results):
                 continue
             if label in allowed:
                 continue
-            if d.get("before") is None and d.get("after") and d["after"][0] == "d" and label in allow_new_dirs:
-                continue
+            if d.get("before") is None and d.get("after") and d["after"][0] == "d" and (
+                    label in allow_new_dirs or any(a.startswith(label + "/") for a in allowed)):
+                continue  # a missing parent directory of an allowed destination
             what = "changed-tree"
             if cmd == "annotate":
                 base = label[:-len(".license")] if label.endswith(".license") else label
